@@ -55,7 +55,7 @@ def main():
         if only and not any(c.startswith(o) for o in only):
             continue
         rc, subj = sh(f"git -C /repo log -1 --format=%s {c}")
-        r = {"commit": c, "subject": subj.strip(), "properties": e["props"], "recorded_signatures": sorted(set(e["signatures"])), "checks": {}}
+        r = {"commit": c, "subject": subj.strip(), "at_repo_head": head, "properties": e["props"], "recorded_signatures": sorted(set(e["signatures"])), "checks": {}}
         sh("git revert --abort; git checkout -q -- . ; git clean -fdq", cwd=wt)
         rc, o = sh(f"git revert --no-commit {c}", cwd=wt)
         manual = f"/verif/fixrevert/manual/{c}.diff"
@@ -131,7 +131,8 @@ def main():
         rows.append(f"| `{c}` | {r['subject'].replace('|', '/')} | {', '.join(r['properties'])} | {out} |")
     n_clean = sum(1 for r in results.values() if r.get("reverts_cleanly") and "build" not in r)
     n_caught = sum(1 for r in results.values() if r.get("caught_by"))
-    text = (f"# Do the checks report a repaired defect again if it returns?\n\n`tools/fixrevert.py`, /repo HEAD {head}: each `fix:` commit recorded in `known_findings.json` "
+    heads = sorted(set(r.get("at_repo_head", "607139c") for r in results.values()))
+    text = (f"# Do the checks report a repaired defect again if it returns?\n\n`tools/fixrevert.py` (reverts made on /repo HEAD {' / '.join(heads)}, the HEAD at the time of each run): each `fix:` commit recorded in `known_findings.json` "
             f"reverted on a scratch copy of HEAD, harness rebuilt, checks of its properties run (quick, then thorough). "
             f"{len(results)} commits, {n_clean} revert cleanly and build, {n_caught} of those are reported again.\n\n"
             "| commit | subject | properties | reverted: reported by |\n|---|---|---|---|\n" + "\n".join(rows) + "\n")
